@@ -12,7 +12,7 @@ RULE = ("generated trees inside a repository directory (whose name may contain r
         "built from the entries' own names: literal names, `*.ext`, `dir/`, `dir/*.ext`, `**/name`, `?` patterns, "
         "comments, blank lines, `!exceptions` (git, docker), `syntax: glob|regexp` sections with `\\.ext$`, `^dir/`, plain "
         "words (hg); root = the repository or a sub-directory of it, spelled `.`, relative or absolute; rules enabled "
-        "by option, by the configuration default, and switched off by `no…` against a default; bfs/dfs. (a) CLI "
+        "by option, by the configuration default, and switched off by `no…` against a default; bfs/dfs; two roots in one query, each a repository with its own hg/docker ignore file, in either order. (a) CLI "
         "correspondence with the Lean model (git's verdict per entry is snapshot input taken from `git check-ignore`); "
         "(b) oracle: rows with the rules = rows without them minus the entries the tool ignores — `git check-ignore` "
         "for git, reference matchers of Mercurial's and Docker's pattern semantics for the generated subset — an "
@@ -173,12 +173,80 @@ def with_ancestors(ignored, rel):
     return False
 
 
+def part_two_repos(ctx, scratch, quick):
+    """several roots, each governed by its own ignore file (hg / docker; same or different tools): every root is
+    filtered by the rules that apply to *it*, whatever was loaded for the roots before it"""
+    for t in range(10 if quick else 300):
+        r = ctx.rng.fork()
+        top = os.path.join(scratch, "two%d" % t)
+        repos = []
+        for name in ("ra", "rb"):
+            tool = r.choice(["hg", "docker"])
+            repo = os.path.join(top, name)
+            os.makedirs(repo)
+            ents = tree(r)
+            fstree.materialise(repo, ents)
+            lines = gen_patterns(r, ents, tool)
+            if not any(k in ("glob", "regexp") for k, _ in lines):
+                files = [e["path"] for e in ents if e["kind"] == "f"]
+                if files:
+                    lines.append(("glob", os.path.basename(r.choice(files))))
+            text = "".join(tx + "\n" for _, tx in lines)
+            if tool == "hg":
+                os.makedirs(os.path.join(repo, ".hg"))
+                open(os.path.join(repo, ".hgignore"), "w").write(text)
+            else:
+                open(os.path.join(repo, ".dockerignore"), "w").write(text)
+            repos.append((name, repo, tool, lines, text, hg_reference(lines) if tool == "hg" else docker_reference(lines)))
+        order = repos if r.chance(1, 2) else repos[::-1]
+        byopt = r.chance(2, 3)
+        cfgpath = None
+        if not byopt:
+            cfgpath = os.path.join(scratch, "cfgtwo%d.toml" % t)
+            open(cfgpath, "w").write("".join("%s = true\n" % k for k in sorted(set({"hg": "hgignore", "docker": "dockerignore"}[x[2]] for x in repos))))
+        spell = (lambda x: x[0]) if r.chance(1, 2) else (lambda x: gen.quote_path(x[1]))
+        trav = r.choice(["", " dfs"])
+        opt = {"hg": "hgignore", "docker": "dockerignore"}
+        q = "select path from %s into list" % ", ".join("%s%s%s" % (spell(x), (" " + opt[x[2]]) if byopt else "", trav) for x in order)
+        qplain = "select path from %s into list" % ", ".join("%s%s" % (spell(x), trav) for x in order)
+        ctx.case(("two", t, q))
+        case = {"argv": [q], "cwd": "two%d" % t, "config": open(cfgpath).read() if cfgpath else None,
+                "ignore_files": {x[0]: {"tool": x[2], "text": x[4]} for x in repos}}
+        impl = common.run_cli([q], cwd=top, scratch=scratch, config=cfgpath)
+        plain = common.run_cli([qplain], cwd=top, scratch=scratch)
+        if common.panicked(impl) or impl["status"] != 0:
+            ctx.oracle_fail("search of two roots with ignore rules failed", case, detail={"status": impl["status"], "err": impl["err"][:300].decode("utf-8", "replace")})
+            common.rm_tree(top)
+            continue
+        prow = [x.decode("utf-8", "surrogateescape") for x in plain["out"].split(b"\0")[:-1]]
+        rows = [x.decode("utf-8", "surrogateescape") for x in impl["out"].split(b"\0")[:-1]]
+        want, unsure = [], set()
+        for pth in prow:
+            full = os.path.normpath(pth if os.path.isabs(pth) else os.path.join(top, pth))
+            x = [y for y in repos if full == y[1] or full.startswith(y[1] + "/")][0]
+            rel = os.path.relpath(full, x[1])
+            # with a configuration default both keys are on: a root is filtered by every kind of ignore file it has
+            ign = with_ancestors(x[5], rel)
+            if ign and x[2] == "docker" and not x[5](rel):
+                unsure.add(pth)
+            if not ign:
+                want.append(pth)
+        if sorted(p for p in rows if p not in unsure) != sorted(p for p in want if p not in unsure):
+            ctx.oracle_fail("several roots: a root is not filtered by exactly its own ignore file", case,
+                            detail={"wrongly_omitted": sorted(set(want) - set(rows) - unsure)[:5], "wrongly_listed": sorted(set(rows) - set(want) - unsure)[:5]})
+        if 0 < len(want) < len(prow):
+            ctx.distinct.add(("two", t, "nt"))
+        ctx.count("two_repository_cases")
+        common.rm_tree(top)
+
+
 def run(ctx):
     quick = ctx.tier == "quick"
     ntrees = 40 if quick else 2000
     scratch = common.new_scratch()
     genv = {"HOME": os.path.join(scratch, "home"), "PATH": "/usr/bin:/bin", "GIT_CONFIG_NOSYSTEM": "1"}
     try:
+        part_two_repos(ctx, scratch, quick)
         for t in range(ntrees):
             r = ctx.rng.fork()
             tool = r.choice(["git", "hg", "docker"])
@@ -207,9 +275,19 @@ def run(ctx):
                         {"path": "y", "kind": "d", "mode": 0o755, "mtime": 1700000000},
                         {"path": "y/k.c", "kind": "f", "size": 2, "mode": 0o644, "mtime": 1700000002},
                         {"path": "y/m", "kind": "f", "size": 2, "mode": 0o644, "mtime": 1700000002}]
+            corpus3 = t == 2
+            if corpus3:
+                # witness of D72 (fixed): a docker pattern with a leading dot must not match other first characters
+                tool = "docker"
+                ents = [{"path": "a11", "kind": "f", "size": 2, "mode": 0o644, "mtime": 1700000002},
+                        {"path": ".b1", "kind": "f", "size": 2, "mode": 0o644, "mtime": 1700000002},
+                        {"path": "aenv", "kind": "f", "size": 2, "mode": 0o644, "mtime": 1700000002},
+                        {"path": ".env", "kind": "f", "size": 2, "mode": 0o644, "mtime": 1700000002},
+                        {"path": "x.tmp", "kind": "f", "size": 2, "mode": 0o644, "mtime": 1700000002}]
             fstree.materialise(repo, ents)
-            lines = gen_patterns(r, ents, tool) if not (corpus or corpus2) else \
-                ([("glob", "*.zip"), ("glob", "!src.zip")] if corpus else [("syntax", "syntax: regexp"), ("regexp", "\\.c$")])
+            lines = gen_patterns(r, ents, tool) if not (corpus or corpus2 or corpus3) else \
+                ([("glob", "*.zip"), ("glob", "!src.zip")] if corpus else
+                 [("syntax", "syntax: regexp"), ("regexp", "\\.c$")] if corpus2 else [("glob", ".?1"), ("glob", "/.env")])
             text = "".join(tx + "\n" for _, tx in lines)
             if tool == "git":
                 subprocess.run(["git", "init", "-q", repo], env=genv, stdout=subprocess.DEVNULL, stderr=subprocess.DEVNULL)
@@ -241,6 +319,8 @@ def run(ctx):
             chosen = r.sample(roots, min(len(roots), 2 if quick else 4))
             if corpus:
                 chosen = [(".", os.path.join(repo, "c.zip"), "c.zip"), (".", repo, "")]
+            if corpus3:
+                chosen = [(".", repo, "")]
             if corpus2:
                 chosen = [(".", os.path.join(repo, "x", "e.c"), "x/e.c"), (".", os.path.join(repo, "x", "e.c", "sub"), "x/e.c/sub"), (".", repo, "")]
             for spelled, cwd, subrel in chosen:
